@@ -778,9 +778,9 @@ def c08(ctx):
                 break
             # the model is compared on a stratified sample of the segmentations (all of them in the
             # thorough tier): unsplit, single bytes, corpus, big, and a random part of the rest
-            if label in ("corpus", "big") or not quick or len(cch) + len(sch) <= 2 or len(cch) + len(sch) > 40 \
-                    or rng.random() < 0.12:
-                if len(kcases) < (900 if quick else 20000):
+            if label in ("corpus", "big") or len(cch) + len(sch) <= 2 or len(cch) + len(sch) > 40 \
+                    or rng.random() < (0.12 if quick else 0.2):
+                if len(kcases) < (900 if quick else 8000):
                     kcases.append((cch, tail, sch, tail, r))
     ctx.sample({"kind": "redis-chunking", "streams": len(streams) + 1,
                 "example_client": repr(streams[0][1])[:120], "example_server": repr(streams[0][2])[:120]})
@@ -814,7 +814,7 @@ def c01(ctx):
             if exp is not None and r["items"] != exp:
                 ctx.violation(replay_obj("prefix-" + kind, cch, ct, sch, st, order, r,
                                          dict(extra or {}, expected=show_items(exp))))
-            if order == "cs" and (len(kcases) < (700 if quick else 12000)) and (not quick or rng.random() < 0.5):
+            if order == "cs" and (len(kcases) < (700 if quick else 5000)) and rng.random() < (0.5 if quick else 0.3):
                 kcases.append((cch, ct, sch, st, r))
 
     # (a)+(b) well-formed conversations and every prefix of them (server side cut, client side cut)
@@ -859,7 +859,7 @@ def c01(ctx):
                 ctx.violation(replay_obj("crash-corruption", cch, ct, sch, st, order, r, extra))
             elif exp is not None and r["items"][:len(exp[1])] != exp[1]:
                 ctx.violation(replay_obj("prefix-corruption", cch, ct, sch, st, order, r, dict(extra, expected_prefix=show_items(exp[1]))))
-            elif len(kcases) < (900 if quick else 16000) and (not quick or rng.random() < 0.5):
+            elif len(kcases) < (900 if quick else 8000) and rng.random() < (0.5 if quick else 0.3):
                 kcases.append((cch, ct, sch, st, r))
     # (d) arbitrary strings biased to protocol tokens, both directions
     batch = []
